@@ -43,6 +43,7 @@ type script struct {
 	chunks  []int // body chunk sizes
 	flush   []bool
 	hijack  bool
+	early   bool // send "103 Early Hints" before the final status
 	// what the handler observed
 	invoked    int
 	gotFlusher bool
@@ -97,6 +98,9 @@ func runScript(sim *simrt.Sim, w http.ResponseWriter, req *http.Request) {
 	}
 	for _, h := range sc.headers {
 		w.Header().Add(h[0], h[1])
+	}
+	if sc.early {
+		w.WriteHeader(http.StatusEarlyHints)
 	}
 	if sc.status != 0 {
 		w.WriteHeader(sc.status)
@@ -259,6 +263,7 @@ func c20prop(r *simkit.Run) {
 		probe.hijack = true
 	} else {
 		probe.status = rapid.SampledFrom([]int{0, 0, 200, 201, 202, 301, 404, 409, 500, 502, 503}).Draw(rt, "status")
+		probe.early = rapid.IntRange(0, 3).Draw(rt, "early-hints") == 0
 		if rapid.Bool().Draw(rt, "h-multi") {
 			probe.headers = append(probe.headers, [2]string{"X-Multi", "one"}, [2]string{"X-Multi", "two"})
 		}
@@ -348,7 +353,7 @@ func c20prop(r *simkit.Run) {
 
 	sim.NoteStr("stack", strings.Join(names, ","))
 	sim.Note("intervene", int64(intervene), int64(probe.status), int64(len(reqBody)))
-	sim.NoteStr("probe", fmt.Sprint(probe.headers, probe.chunks, probe.flush, probe.hijack, method))
+	sim.NoteStr("probe", fmt.Sprint(probe.headers, probe.chunks, probe.flush, probe.hijack, probe.early, method))
 	rec, task, _ := send(probe, "probe-src", reqBody, method)
 	failIf(task, "probe request")
 	if !task.Done() {
@@ -387,6 +392,9 @@ func c20prop(r *simkit.Run) {
 			}
 			if !sameHeaders(rec, bare) {
 				r.Fail("headers", "client saw headers %v, the handler alone produces %v %s", rec.Snapshot, bare.Snapshot, ctxt())
+			}
+			if !bufferAbove && !reflect.DeepEqual(rec.Informational, bare.Informational) {
+				r.Fail("informational", "informational responses at the client %v, the handler alone produces %v %s", rec.Informational, bare.Informational, ctxt())
 			}
 			if !bufferAbove {
 				if !probe.gotFlusher {
@@ -456,4 +464,6 @@ func clientHeaders(r *simkit.Recorder) map[string][]string {
 	return out
 }
 
-func sameHeaders(a, b *simkit.Recorder) bool { return reflect.DeepEqual(clientHeaders(a), clientHeaders(b)) }
+func sameHeaders(a, b *simkit.Recorder) bool {
+	return reflect.DeepEqual(clientHeaders(a), clientHeaders(b))
+}
